@@ -88,8 +88,27 @@ var pools = map[kind][]string{
 	cJSONPath:   {"a", "b", "c.1", "c.0", "d.e", "zz", ""},
 }
 
-type argSpec struct {
-	k kind
+// goodPools: the well-formed constants of a kind (what the documentation
+// accepts at that position). Bodies of user functions draw only from these so
+// that the funcs file loads; a wrong entry here only makes more cases skip.
+var goodPools = map[kind][]string{
+	kInt:        {"42", "-3", "0", "1", "7", "100", "1000", "65536", "12"},
+	kFloat:      {"2.5", "-1.25", "0", "1", "100", "0.001", "1e3", "3.0"},
+	kDate:       {"2020-01-05 10:11:12", "2021-12-31 23:59:59", "2016-04-14T17:12:25Z", "14/Apr/2016:19:12:25 +0200", "2006-01-02"},
+	kUnix:       {"1460653945", "0", "1578182400", "86400", "-1", "1700000000"},
+	kDur:        {"24h", "90s", "1h30m", "5m"},
+	cPrec:       {"2", "0", "1", "3", "4"},
+	cBucket:     {"10", "50", "1", "5", "100", "1000"},
+	cClamp:      {"10", "0", "-5", "100"},
+	cColor:      {"red", "green", "blue", "yellow", "cyan", "magenta", "white", "black"},
+	cTz:         {"", "utc", "UTC", "local", "America/New_York", "Asia/Tokyo", "Europe/Paris"},
+	cTimeBucket: {"day", "h", "minute", "s", "nanos", "mo", "month", "y", "years", "d"},
+	cAttr:       {"weekday", "week", "yearweek", "quarter", "WEEK"},
+	cScaler:     {"linear", "log10", "log2"},
+	cDelim:      {",", ";", "-", " ", "::", "ab"},
+	cIndex:      {"1", "0", "2", "-1", "-2", "5"},
+	cBarMax:     {"100", "10", "1", "1000"},
+	cBarLen:     {"10", "1", "5", "20"},
 }
 
 type fnSpec struct {
